@@ -2,7 +2,11 @@ package main
 
 import (
 	"fmt"
+	"reflect"
 	"strings"
+
+	zx509 "github.com/zmap/zcrypto/x509"
+	"github.com/zmap/zcrypto/x509/pkix"
 
 	"github.com/zmap/zlint/v3/lint"
 )
@@ -78,4 +82,64 @@ func configVariants() []string {
 		}
 	}
 	return ok
+}
+
+// optionValueConfigs: one configuration per (configurable lint, option, candidate value): the option set to values of the
+// kind its printed default suggests - booleans, small integers, and for text and list options the words a user would try
+// there: the exported field names of the certificate and name structures (options that select fields are named after
+// them), and generic words.  Each entry names the lint so that the caller can restrict the run to it.
+type optionConfig struct {
+	Lint, Text string
+}
+
+func optionValueConfigs() []optionConfig {
+	b, err := lint.GlobalRegistry().DefaultConfiguration()
+	if err != nil {
+		return nil
+	}
+	words := []string{"", "x", "CommonName", "SerialNumber", "Names", "ExtraNames", "OriginalRDNS", "all", "*", "Subject", "Issuer"}
+	for _, t := range []reflect.Type{reflect.TypeOf(pkix.Name{}), reflect.TypeOf(zx509.Certificate{})} {
+		for i := 0; i < t.NumField(); i++ {
+			if f := t.Field(i); f.IsExported() {
+				words = append(words, f.Name)
+			}
+		}
+	}
+	var out []optionConfig
+	section := ""
+	for _, ln := range strings.Split(string(b), "\n") {
+		t := strings.TrimSpace(ln)
+		if strings.HasPrefix(t, "[") {
+			section = strings.Trim(t, "[]")
+			continue
+		}
+		kv := strings.SplitN(t, "=", 2)
+		if len(kv) != 2 || !strings.Contains(section, "_") {
+			continue
+		}
+		k, v := strings.TrimSpace(kv[0]), strings.TrimSpace(kv[1])
+		var vals []string
+		switch {
+		case v == "true" || v == "false":
+			vals = []string{"true", "false"}
+		case strings.HasPrefix(v, "["):
+			for _, w := range words {
+				vals = append(vals, fmt.Sprintf("[%q]", w), fmt.Sprintf("[%q, %q]", "Organization", w))
+			}
+			vals = append(vals, "[1, 2]", "[true]", "[[\"a\"]]", "[]")
+		case strings.HasPrefix(v, "\""):
+			for _, w := range words {
+				vals = append(vals, fmt.Sprintf("%q", w))
+			}
+		default:
+			vals = []string{"0", "1", "-1", "5", "1.5"}
+		}
+		for _, val := range vals {
+			txt := fmt.Sprintf("[%s]\n%s = %s\n", section, k, val)
+			if _, err := lint.NewConfigFromString(txt); err == nil {
+				out = append(out, optionConfig{section, txt})
+			}
+		}
+	}
+	return out
 }
